@@ -101,6 +101,22 @@ def WUnd (given : Option Name) (a : List Nat) : Prop :=
   | some g => fixEncoding a g false = none
   | none => detectUnicode a false = none
 
+/-! ## `reset()` of the incremental classes (`codec.py:330-334`, `:427-430`)
+
+`IncrementalDecoder.reset`: `self.decoder = None; self.buffer = b""; self.headerfixed = False` — and nothing else:
+`self.encoding`, which `decode` overwrites with the detected encoding (`codec.py:307`), keeps that value.
+`IncrementalEncoder.reset`: `self.encoder = None; self.buffer = ""`; `self.encoding` likewise stays
+(`codec.py:409`). `force` is a constructor argument that never changes. -/
+
+def DSt.reset (force : Bool) : DSt → DSt
+  | .waiting g _ _ => .waiting g force []
+  | .decoding E _ _ => .waiting (some E) force []
+  | .streaming E _ => .waiting (some E) force []
+
+def ESt.reset : ESt → ESt
+  | .waiting g _ => .waiting g []
+  | .encoding E _ => .waiting (some E) []
+
 instance (given : Option Name) (a : List Nat) : Decidable (WUnd given a) :=
   match given with
   | some g => inferInstanceAs (Decidable (fixEncoding a g false = none))
